@@ -65,6 +65,9 @@ ObsAdmitted(arg) ==
       [] arg.kind = "list" -> Len(arg.items) >= 1 /\ \A i \in 1..Len(arg.items) : ItemOK(arg.items[i])
       [] OTHER -> FALSE
 
+\* the sources argument: every entry must contain at least one source (an empty collection, a collection of sensors only, a bare sensor do not)
+SourcesAdmitted(c) == Len(c.sources) >= 1 /\ \A l \in 1..Len(c.sources) : Len(LeavesOf(c.sources[l])) >= 1
+
 \* the call as the requirement view of FieldWrap sees it
 CallOfObs(c, arg) == [field |-> c.field, sumup |-> c.sumup, squeeze |-> c.squeeze, agg |-> c.agg, sources |-> c.sources, sensors |-> ObsSensors(arg)]
 ObsWellFormed(c, arg) == ObsAdmitted(arg) /\ WellFormed(CallOfObs(c, arg))
